@@ -17,7 +17,7 @@ Obligations, for all sizes, nullable flags and with / without an index component
 import z3
 
 from pyvc import core, types as T
-from pyvc.core import And, Implies, Not, SAny, SBool, cur
+from pyvc.core import And, Implies, Not, Or, SAny, SBool, cur, py_eq
 from pyvc.heap import DictObj, ListObj, Obj
 from pyvc.spec import Contract, resolve_target
 from pyvc.theories import hypothesis_lite as H
@@ -187,4 +187,106 @@ class DataFrameStrategyPipeline(Contract):
         return thunk
 
 
-CONTRACTS = [DataFrameStrategyPipeline]
+class _Col:
+    """a column schema as dataframe_strategy uses it: attributes + strategy_component() (modelled: records the flags it is asked with)"""
+
+    def strategy_component(self):  # pragma: no cover - replaced by a model
+        raise NotImplementedError
+
+
+class DataFrameStrategyJointUnique(Contract):
+    """dataframe_strategy(columns={a, b}, unique=[a, b]): "generated data validates" needs the rows to be distinct over the listed
+    columns AFTER the null masks are applied (nulls are written into nullable columns once the frame is assembled; validation counts
+    two nulls as equal).  What the function controls is which column strategies it asks for:
+
+        post.joint_uniqueness_is_carried_by_a_column_that_cannot_be_nulled
+            some listed column is requested with unique=True and is not nullable (then no two rows agree on it, whatever the masks do)
+        post.the_callers_columns_are_not_rewritten       the flag is set on copies
+    for all nullable flags of the two columns."""
+
+    target = f"{PS}:dataframe_strategy"
+    check_frame = True
+    split = {"nullable": ["none", "a", "b", "both"]}
+    sym_globals = {f"{PS}:STRATEGY_DISPATCHER": T.Lazy(lambda n: DispatcherModel())}
+
+    def setup(self, I):
+        install_common(I)
+        call_objects_through_dunder_call(I)
+        import hypothesis.extra.pandas as pdst
+
+        I.models[id(pdst.data_frames)] = lambda I_, *a, **k: FrameStrat(lambda: (Frame("assembled"), True), "data_frames(...)", op=None)
+        I.models[id(pdst.range_indexes)] = lambda I_, *a, **k: SAny(name="range_indexes")
+        I.models[id(resolve_target(f"{PS}:null_dataframe_masks"))] = step("null_dataframe_masks")
+        I.models[id(resolve_target(f"{PS}:set_pandas_index"))] = step("set_pandas_index")
+
+        def component(I_, self_obj):
+            from contracts.util import fld
+
+            cur().ghost.setdefault("requested", []).append((fld(self_obj, "name"), fld(self_obj, "unique"), fld(self_obj, "nullable"), self_obj))
+            return SAny(name=f"column_strategy[{fld(self_obj, 'name')}]")
+
+        I.models[id(_Col.strategy_component)] = component
+
+    def make_args(self):
+        cols = DictObj()
+        for k in ("a", "b"):
+            c = Obj(_Col, f"column_{k}", pre=True, fields={})
+            c.attrs.update(regex=False, checks=ListObj(), dtype="int64", nullable=self.fixed.get("nullable", "none") in (k, "both"), name=k, unique=False)
+            c.attrs0.update(c.attrs)
+            dict.__setitem__(cols, k, c)
+        cur().ghost["cols"] = cols
+        return {"pandera_dtype": None, "strategy": None, "columns": cols, "checks": ListObj(), "unique": ListObj(["a", "b"]), "index": None,
+                "size": T.fresh_value(T.Opt(T.Nat), "size"), "n_regex_columns": 1}
+
+    def call_target(self, I, fn, a):
+        return I.call(fn, [a["pandera_dtype"], a["strategy"]], {k: a[k] for k in ("columns", "checks", "unique", "index", "size", "n_regex_columns")})
+
+    def ensures(self, result, old, **a):
+        p = cur()
+        out = {"returns_a_strategy": isinstance(result, StratVal)}
+        if not isinstance(result, StratVal):
+            return out
+        result.draw()
+        req = p.ghost.get("requested", [])
+        out["one_strategy_per_listed_column"] = sorted(r[0] for r in req) == ["a", "b"]
+        carried = [And(py_eq(u, True), Not(n)) for _, u, n, _ in req]
+        out["joint_uniqueness_is_carried_by_a_column_that_cannot_be_nulled"] = Or(*carried) if carried else False
+        own = list(dict.values(p.ghost["cols"]))
+        out["the_callers_columns_are_not_rewritten"] = all(all(o is not c for c in own) for _, u, _, o in req if u is True)
+        return out
+
+    def concretize(self, rec):
+        def thunk():
+            """DataFrameSchema(unique=[a, b]) with a nullable first column and a low-cardinality second one: every example must validate"""
+            import warnings
+
+            import hypothesis
+            import pandera as pa
+
+            warnings.simplefilter("ignore")
+            obs, bad = {}, False
+            for label, (na, nb) in (("a nullable, b not", (True, False)), ("a and b nullable", (True, True))):
+                schema = pa.DataFrameSchema({"a": pa.Column(float, nullable=na), "b": pa.Column(int, pa.Check.isin([1, 2, 3, 4, 5, 6]), nullable=nb)}, unique=["a", "b"])
+                rejected = []
+
+                @hypothesis.settings(max_examples=60, derandomize=True, database=None, deadline=None, suppress_health_check=list(hypothesis.HealthCheck))
+                @hypothesis.given(schema.strategy(size=4))
+                def run(df):
+                    try:
+                        schema.validate(df)
+                    except (pa.errors.SchemaError, pa.errors.SchemaErrors):
+                        rejected.append(df.to_dict("list"))
+
+                try:
+                    run()
+                except Exception as e:  # noqa: BLE001
+                    obs[label] = f"{type(e).__name__}: {e}"[:120]
+                    continue
+                obs[label] = f"{len(rejected)} of the drawn frames rejected" + (f", e.g. {rejected[0]}" if rejected else "")
+                bad = bad or bool(rejected)
+            return bad, obs
+
+        return thunk
+
+
+CONTRACTS = [DataFrameStrategyPipeline, DataFrameStrategyJointUnique]
